@@ -987,6 +987,23 @@ func (c *arithCtx) storeElemLeaf(ix *ast.IndexExpr, visible []ast.Node) (lexpr, 
 			}
 		}
 		if ty == nil {
+			// a snapshot obtained from a (private) function or method of the package: the element type
+			// is the declared result type of that function (unique declaration, single result)
+			if call, ok := d.rhs.(*ast.CallExpr); ok {
+				var fname string
+				switch f := call.Fun.(type) {
+				case *ast.Ident:
+					fname = f.Name
+				case *ast.SelectorExpr:
+					fname = f.Sel.Name
+				}
+				if decls := c.pkg.funcs[fname]; fname != "" && len(decls) == 1 && decls[0].Type.Results != nil &&
+					len(decls[0].Type.Results.List) == 1 && len(decls[0].Type.Results.List[0].Names) <= 1 {
+					ty = decls[0].Type.Results.List[0].Type
+				}
+			}
+		}
+		if ty == nil {
 			return lexpr{}, tyNone, unsupportedf("%s: local `%s` is not declared with a slice type or make", pos, b.Name)
 		}
 	case *ast.SelectorExpr:
